@@ -368,7 +368,7 @@ class SymArray:
                 c = as_const(v)
                 if c is not None:
                     return self._cast(c)
-                return sc.sym_trunc_int(v)
+                return sc.sym_trunc_int(v, strict=False)
             if isinstance(v, SB):
                 return SI.lift(v)
             if isinstance(v, int):
@@ -1295,8 +1295,15 @@ def meshgrid(*xi, indexing='xy', **kw):
 
 
 # ----------------------------------------------------------------- elementwise functions
+def _unwrap(x):
+    if hasattr(x, '_sx_array_'):
+        return x._sx_array_()
+    return x
+
+
 def _ew(fsym, fconc, fdtype=True):
     def g(x, *a, **k):
+        x = _unwrap(x)
         if isinstance(x, MaskedSel):
             return x._map(g)
         if isinstance(x, (SymArray, list, tuple, _np.ndarray)):
@@ -1389,14 +1396,17 @@ def mod(a, b):
 
 
 def logical_or(a, b):
+    a, b = _unwrap(a), _unwrap(b)
     return asarray(a) | b if isinstance(a, (SymArray, _np.ndarray)) or isinstance(b, SymArray) else mkbool(bor(bt(a), bt(b)))
 
 
 def logical_and(a, b):
+    a, b = _unwrap(a), _unwrap(b)
     return asarray(a) & b if isinstance(a, (SymArray, _np.ndarray)) or isinstance(b, SymArray) else mkbool(band(bt(a), bt(b)))
 
 
 def logical_not(a):
+    a = _unwrap(a)
     return ~asarray(a) if isinstance(a, (SymArray, _np.ndarray)) else mkbool(bnot(bt(a)))
 
 
@@ -1415,6 +1425,8 @@ def minimum(a, b):
 
 
 def where(c, *args):
+    c = _unwrap(c)
+    args = tuple(_unwrap(a) for a in args)
     if isinstance(c, (bool, SB)):
         c = asarray([c], _np.bool_).reshape(())
     c = asarray(c)
